@@ -34,7 +34,7 @@ def shards(tier, seed):
         grid = [(0.3, 32), (0.9, 32), (0.3, 128), (0.9, 128)]
         R, wins = 300, ["hann"]
     else:
-        n_ana, n_syn, budget = 400, 600, 400
+        n_ana, n_syn, budget = 4000, 3000, 400
         grid = [(g, n) for g in (0.3, 0.6, 0.9) for n in (32, 128, 512)]
         R, wins = 1000, ["hann", "rect"]
     for i in range(4 if tier == "quick" else 8):
